@@ -323,6 +323,16 @@ class ChartRun(object):
       self.build = chartgen.build_closure(self.spec, self.rec, spied=False, effects=fx, malform=sc.get('malform'))
     elif b == 'closure-spied':
       self.build = chartgen.build_closure(self.spec, self.rec, spied=True, effects=fx, malform=sc.get('malform'))
+    elif b == 'closure-mixed':
+      # the decorator is on some states only (drawn from sc['mix']; at least one state has it and one has not)
+      names = sorted(self.spec.states)
+      mr = random.Random(sc.get('mix', 0))
+      un = [n for n in names if mr.random() < 0.5]
+      if not un:
+        un = [names[mr.randrange(len(names))]]
+      if len(un) == len(names) and len(names) > 1:
+        un.pop(mr.randrange(len(un)))
+      self.build = chartgen.build_closure(self.spec, self.rec, spied=True, effects=fx, malform=sc.get('malform'), unspied=frozenset(un))
     elif b == 'template':
       self.build = chartgen.build_template(self.spec, self.rec, c, effects=fx)
     elif b == 'factory':
